@@ -445,7 +445,7 @@ func (h *handshake) execute() *tcpip.Error {
 	resendWaker := sleep.Waker{}
 	// 设置1s超时
 	timeOut := time.Duration(time.Second)
-	rt := time.AfterFunc(timeOut, func() {
+	rt := time.AfterFunc(verifStretch(timeOut), func() {
 		resendWaker.Assert()
 	})
 	defer rt.Stop()
@@ -499,7 +499,7 @@ func (h *handshake) execute() *tcpip.Error {
 			if timeOut > 60*time.Second {
 				return tcpip.ErrTimeout
 			}
-			rt.Reset(timeOut)
+			rt.Reset(verifStretch(timeOut))
 			// 重新发送syn报文
 			sendSynTCP(&h.ep.route, h.ep.id, h.flags, h.iss, h.ackNum, h.rcvWnd, synOpts)
 
@@ -1077,7 +1077,7 @@ func (e *endpoint) protocolMainLoop(handshake bool) *tcpip.Error {
 				if n&notifyClose != 0 && closeTimer == nil {
 					// Reset the connection 3 seconds after the
 					// endpoint has been closed.
-					closeTimer = time.AfterFunc(3*time.Second, func() {
+					closeTimer = time.AfterFunc(verifStretch(3*time.Second), func() {
 						closeWaker.Assert()
 					})
 				}
